@@ -147,6 +147,7 @@ var witnesses = loadWitnesses()
 // runFixed judges a fixed (schema, operation, variables) triple: witnesses of the open known
 // findings and regression inputs of the repaired defects.
 func (p c03) runFixed(w witness) fw.Result {
+	caseSpreadDirFact = "false"
 	res := fw.Result{Key: fw.HashKey("fixed", w.Name), Nontrivial: true}
 	res.Sample = map[string]any{"fixed_case": w.Name, "operation": w.Operation, "variables": w.Variables}
 	detail := func(extra map[string]any) map[string]any {
@@ -211,6 +212,7 @@ func (p c03) Run(c *fw.Ctx, idx int) fw.Result {
 	r := c.Rng(idx, "c03")
 	sp := gen.DefaultProfile(r)
 	sp.Keywords = idx%5 == 0
+	sp.ExecDirectives = idx%4 == 2
 	schema := gen.GenSchema(r, sp)
 	sdl := schema.SDL()
 	ss, err := rig.LoadSchemas(sdl)
@@ -222,6 +224,7 @@ func (p c03) Run(c *fw.Ctx, idx int) fw.Result {
 	op.MultiOps = idx%7 == 0
 	op.NoSingletonVars = idx%2 == 0
 	op.MultiFrag = idx%3 != 0
+	op.CustomDirs = true
 	if idx%4 == 1 {
 		op.VarBias = 7
 	}
@@ -229,6 +232,7 @@ func (p c03) Run(c *fw.Ctx, idx int) fw.Result {
 		op.Kind = "mutation"
 	}
 	doc, vals := gen.GenOperation(r, schema, op)
+	caseSpreadDirFact = fmt.Sprint(gen.SpreadDirectiveNotForInline(schema, doc))
 	text := doc.String()
 	opName := ""
 	if op.MultiOps {
@@ -390,7 +394,7 @@ func (p c03) judge(res *fw.Result, ss *rig.Schemas, seq, printed string, variabl
 	qd, gerrs := ss.LoadQuery(printed)
 	if gerrs != nil {
 		cls := classifyGqlErr(gerrs.Error())
-		res.Violate("normalize.invalid-output", "normalised operation is not valid (gqlparser): "+gerrs.Error(), map[string]string{"sequence": seq, "validator": "gqlparser", "rule": cls, "nullability_only_conflict": fmt.Sprint(nullabilityOnlyConflict(gerrs.Error()))}, d(nil))
+		res.Violate("normalize.invalid-output", "normalised operation is not valid (gqlparser): "+gerrs.Error(), map[string]string{"sequence": seq, "validator": "gqlparser", "rule": cls, "nullability_only_conflict": fmt.Sprint(nullabilityOnlyConflict(gerrs.Error())), "spread_directive_without_inline_fragment_location": caseSpreadDirFact}, d(nil))
 		return
 	}
 	// valid for the repository's own validator
@@ -404,7 +408,7 @@ func (p c03) judge(res *fw.Result, ss *rig.Schemas, seq, printed string, variabl
 			} else {
 				msg = vres.Errors.Error()
 			}
-			res.Violate("normalize.invalid-output", "normalised operation is not valid (repository validator): "+msg, map[string]string{"sequence": seq, "validator": "repo", "rule": classifyGqlErr(msg), "nullability_only_conflict": fmt.Sprint(nullabilityOnlyConflict(msg))}, d(nil))
+			res.Violate("normalize.invalid-output", "normalised operation is not valid (repository validator): "+msg, map[string]string{"sequence": seq, "validator": "repo", "rule": classifyGqlErr(msg), "nullability_only_conflict": fmt.Sprint(nullabilityOnlyConflict(msg)), "spread_directive_without_inline_fragment_location": caseSpreadDirFact}, d(nil))
 		}
 	}
 	op := rig.PickOperation(qd, "")
@@ -479,8 +483,11 @@ func onlyFragmentStructure(a, b string) bool {
 	return a != b && norm(a) == norm(b)
 }
 
+// caseSpreadDirFact: fact of the case being run (cases run one at a time per worker process).
+var caseSpreadDirFact = "false"
+
 func classifyGqlErr(msg string) string {
-	for _, k := range []string{"never used", "is not defined", "Unknown argument", "Unknown type", "Cannot query field", "cannot be spread", "conflict", "Expected", "expected type", "must have a selection", "must not have a selection", "Unknown directive", "unused", "not used"} {
+	for _, k := range []string{"never used", "is not defined", "Unknown argument", "Unknown type", "Cannot query field", "cannot be spread", "conflict", "Expected", "expected type", "must have a selection", "must not have a selection", "Unknown directive", "unused", "not used", "may not be used on INLINE_FRAGMENT", "not allowed on node of kind: INLINE_FRAGMENT"} {
 		if strings.Contains(msg, k) {
 			return k
 		}
